@@ -165,8 +165,10 @@ class RobotDriver:
         self.thread.start()
         self.quiesce(seen)
 
-    def set_mode(self, mode):
+    def set_mode(self, mode, fms=None):
         DSS = self.DSS
+        if fms is not None:
+            DSS.setFmsAttached(bool(fms))
         DSS.setEnabled(mode != "disabled")
         DSS.setAutonomous(mode == "auto")
         DSS.setTest(mode == "test")
